@@ -358,6 +358,9 @@ class SelectorWait(Contract):
     def result(self, ip, a, old):
         return (mk(ip, T.Bool, 'readable'), mk(ip, T.Int(1), 'nbytes'))
 
+    def requires(self, ip, a):
+        return [('max_bytes-positive', iv(a.max_bytes) >= 1)]
+
     def raises(self, ip, a, old):
         return [Raises(Exception, 'selector-error', when=None, modifies=[])]
 
@@ -367,7 +370,9 @@ class SelectorWait(Contract):
             return [('returns-pair', BoolVal(False))]
         readable, n = res
         readable = readable if not isinstance(readable, bool) else BoolVal(readable)
-        out = []
+        # bytes buffered in the TLS layer never exceed one TLS record (16 KiB): assumed in extworld
+        out = [('count-within-max_bytes-or-one-tls-record', And(iv(n) >= 0, iv(n) <= If(iv(a.max_bytes) > 16384, iv(a.max_bytes), 16384))),
+               ('count-positive-when-readable', Implies(readable, iv(n) >= 1))]
         if ip.reading == 'body':
             sock = st.ghost['sel_sock']
             g = extworld.sock_state(st, sock)
